@@ -4,7 +4,7 @@ any exit code other than 0 is a false alarm (1) or a brittleness (2) to fix.
 usage: refactor_matrix.py [dir-with-k/patch.diff ...]"""
 import glob, json, os, sys
 from concurrent.futures import ThreadPoolExecutor
-sys.path.insert(0, '/verif')
+import os; sys.path.insert(0, os.path.dirname(os.path.dirname(os.path.abspath(__file__))))
 from cqverif import scratch
 ALL = ["C01","C02","C03","C04","C05","C06","C07","C08","C09","C10","C12","C14","C15","C16","C17","C18","C19","C20"]
 roots = sys.argv[1:] or ['/verif/refactors']
